@@ -757,8 +757,13 @@ class Executor:
                 obj.items[k] = v
                 self._mutated(obj, 'setitem')
                 return
-            if isinstance(k, slice) and k == slice(None, None, None):
-                obj.items[:] = self.iterate(v) if not is_scalar(v) else [v] * len(obj.items)
+            if isinstance(k, slice) and all(x is None or isinstance(x, int) for x in (k.start, k.stop, k.step)):
+                idx = list(range(len(obj.items)))[k]
+                vals = [v] * len(idx) if is_scalar(exact(v)) else self.iterate(v)
+                if len(vals) != len(idx):
+                    raise PyRaise('ValueError', 'cannot assign %d values to a slice of length %d' % (len(vals), len(idx)))
+                for i, x in zip(idx, vals):
+                    obj.items[i] = x
                 self._mutated(obj, 'setitem')
                 return
             if isinstance(k, tuple) and len(k) == 2 and all(isinstance(x, int) for x in k) and isinstance(obj.items[k[0]], VList):
@@ -790,6 +795,10 @@ class Executor:
         raise Unsupported('setitem on %s' % vrepr(obj))
 
     def setattr(self, obj, name, v):
+        if isinstance(obj, ModuleRef):
+            self.module_overrides[(obj.name, name)] = v
+            self.ctx.log.append(('global-write', obj.name, name, v))
+            return
         if isinstance(obj, (Tm, Closure)):
             obj.attrs[name] = v
             self.ctx.log.append(('setattr', obj, name, v))
@@ -1722,6 +1731,9 @@ class Executor:
             items = ex.iterate(x)
             if all(is_num(i) or isinstance(i, str) for i in items) and not k.get('key'):
                 return VList(sorted(items, reverse=bool(k.get('reverse', False))))
+            if not k.get('key') and all(isinstance(i, tuple) and i and is_num(i[0]) for i in items) and len({i[0] for i in items}) == len(items):
+                # tuples ordered by distinct concrete first components: the remaining components never get compared
+                return VList(sorted(items, key=lambda t: t[0], reverse=bool(k.get('reverse', False))))
             raise Unsupported('sorted of symbolic values')
 
         def _reversed(x):
